@@ -81,7 +81,11 @@ def space_cases(ctx, n_sample):
         vh, vw = rng.randint(1, 6), rng.choice([1, 3, 5, 7])
         if i % 5 == 0:
             h, w = 2, 2
-        out.append((list(ts), list(cs), (h, w), (vh, vw)))
+        ts, cs = list(ts), list(cs)
+        if i % 2:  # declared in arbitrary order (NONE not first, types not in registry order)
+            rng.shuffle(ts)
+            rng.shuffle(cs)
+        out.append((ts, cs, (h, w), (vh, vw)))
     return out
 
 
